@@ -65,10 +65,10 @@ CHECKS = {
     ),
     "C14": dict(
         level="fault_enumeration",
-        text="PARTIAL claim (the channel half of C14). Signer -> hostile channel -> verifier: for every sampled honest (seed, message) the complete catalogue is enumerated: untouched (must accept); all 512 signature bit flips, all 256 public-key bit flips, every/sampled message bit, truncate/extend, S+kL for k=1..15, another signer's key, another message's signature (must reject); and a Byzantine sender's 8 small-order-key forgeries (R=identity, S=0, message searched so that h and h mod L are multiples of 8, so the group equation holds by torsion arithmetic under either reading of h): must accept unless the key is the all-zero string. ~900 verifications per run; 2k runs quick, 120k thorough. The full 'iff the group equation' for arbitrary triples needs an independent curve model and is not claimed.",
-        ref="DESIGN.md §4.9",
-        note="No independent curve arithmetic. An accepted altered triple would be a forgery or SHA-512 collision (treated as impossible). Message search uses the library's SHA-512 and a harness big-integer mod L.",
-        technique=TECH + "; channel-fault catalogue enumerated per sampled signature, closed-form verdicts",
+        text="Signer -> hostile channel -> verifier, plus a Byzantine sender. For every sampled honest (seed, message) the complete catalogue is enumerated: untouched (must accept); all 512 signature bit flips, all 256 public-key bit flips, every/sampled message bit, truncate/extend, S+kL for k=1..15, another signer's key, another message's signature (must reject: an accepted one would be a forgery). Adversarial triples are judged by an INDEPENDENT Ed25519 model written from RFC 8032 on plain 256-bit integers (model::ed25519; unit-tested against RFC 8032 test vectors, base-point order and torsion orders): the honest triple itself, random (key, signature) pairs, canonical non-point keys, mixed-order keys A+T (T of order 2/4/8) with a signature produced by the real signer over those key bytes (valid iff the torsion part cancels), boundary values of S (0, 1, L-1, L, L+1, 2^252, ...), special encodings of R (the 8 torsion points, non-canonical identity encodings, random), and the small-order-key forgeries with canonical and non-canonical R whose verdict is also known in closed form. Where the property text does not fix the verdict (non-canonical key encodings; keys with a torsion component for which 'h' reduced mod L or not gives different answers) the model says 'unspecified' and the run does not judge. ~970 verifications per run; 2k runs quick, 120k thorough.",
+        ref="DESIGN.md §4.9 and §10",
+        note="Trusted: the harness's integer Ed25519 model and the library's SHA-512 (a wrong hash is C01). Triples are sampled (catalogue enumerated per sample), so this is evidence, not proof, that verify accepts exactly the triples satisfying the equation. Non-canonical encodings of the PUBLIC KEY are recorded but not judged.",
+        technique=TECH + "; channel-fault catalogue enumerated per sampled signature; verdict oracle = independent RFC 8032 model (closed-form for forgery-hard alterations)",
     ),
     "C16": dict(
         level="exploration",
